@@ -32,7 +32,11 @@ func (n *Names) key(pub []byte) string {
 	if s, ok := n.KeyName[hex.EncodeToString(pub)]; ok {
 		return s
 	}
-	return "x" + hex.EncodeToString(pub)[:8]
+	h := hex.EncodeToString(pub)
+	if len(h) > 8 {
+		h = h[:8]
+	}
+	return "x" + h
 }
 
 // ---------------- locker ----------------
